@@ -220,6 +220,7 @@ RULES = [
     ("C18-R4", "no depth underflow for targets above the root; follow flag plumbing", r4),
     ("C01-R5", "without the option no descent through a link [shared with C01]", lambda ctx: __import__("c01").r5(ctx)),
     ("C01-R1", "depth window on the level grid, including directories shallower than the root (reached through links) [shared with C01]", lambda ctx: __import__("c01").r1(ctx)),
+    ("X-CANON", "util::canonical_path answers with the path resolved by fs::canonicalize (no shortcut for paths that look canonical) [shared]", lambda ctx: __import__("extra2").canonical_path_is_canonical(ctx)),
 ]
 
 EXPLANATION = (
